@@ -529,6 +529,7 @@ class Resolver:
                     if got is not None:
                         return got
             if e["name"] in NEXT_LIKE:
+                self.exact = False   # some child of the parent, position unknown: a superset
                 return self.elements(e["recv"], path, depth + 1)
             return None
         if k == "Try":
@@ -698,10 +699,10 @@ def explicit_panics(ctx, rid, crates, G):
                         ctx.inst(rid, key, None, "where the matched pair comes from was not resolved", H.loc(node))
                     elif vs is None:
                         miss = sorted(P - explicit)
-                        ctx.inst(rid, key, not miss, "pair kinds the grammar can put here: %s; without an explicit arm (they reach the %s!): %s" % (sorted(P), node["name"], miss or "none"), H.loc(node))
+                        ctx.inst(rid, key, True if not miss else (False if R.exact else None), "pair kinds the grammar can put here: %s; without an explicit arm (they reach the %s!): %s" % (sorted(P), node["name"], miss or "none"), H.loc(node))
                     else:
                         hit = sorted(P & vs)
-                        ctx.inst(rid, key, not hit, "the arm of %s is reached by pair kinds %s" % (sorted(vs), hit or "none"), H.loc(node))
+                        ctx.inst(rid, key, True if not hit else (False if R.exact else None), "the arm of %s is reached by pair kinds %s" % (sorted(vs), hit or "none"), H.loc(node))
                     continue
                 # (S) match on the text of a pair: every literal the pair's rule can match has an arm
                 txt = sc
@@ -920,7 +921,7 @@ def pratt_nonempty(ctx, rid, crates, G):
                     continue
                 parents, index = pos
                 short = sorted(r for r in parents if r in G.rules and mandatory_children(G, r) <= index)
-                ctx.inst(rid, key, not short, "children of %s from position %d; kinds that can have no child there: %s" % (sorted(parents), index, short or "none"), H.loc(call))
+                ctx.inst(rid, key, True if not short else (False if R.exact else None), "children of %s from position %d; kinds that can have no child there: %s" % (sorted(parents), index, short or "none"), H.loc(call))
     ctx.units["pratt_entry_sites"] = n
 
 
